@@ -38,7 +38,7 @@ REQUIRED_CROSS = ["arm-none-eabi", "aarch64-none-elf", "aarch64_be-none-elf", "m
                   "mipsel-none-elf", "powerpc-none-elf", "powerpc64-none-elf"]
 
 HOSTED = ["exe_nopie", "exe_pie", "exe_static", "exe_static_pie", "so", "so_sysv", "exe_g", "exe_zdebug",
-          "exe_strip", "so_strip", "exe_addsec", "exe_keepdebug", "exe_clang", "exe_tls"]
+          "exe_strip", "so_strip", "exe_addsec", "exe_keepdebug", "exe_clang", "exe_tls", "exe_adjsec"]
 OBJ64 = ["o", "o_g", "o_fsec", "o_pic", "o_strip_unneeded", "ld_r", "cpp_o", "o_O0"]
 M32 = ["o32", "o32_g", "exe32_nostdlib", "so32_nostdlib"]
 KINDS = HOSTED + OBJ64 + M32 + ["cross:" + t for t in CROSS]
@@ -64,7 +64,7 @@ def shards(tier, seed, scale):
 
 # ------------------------------------------------------------------ C source generator
 
-def gen_source(rng, flavour, tls=False):
+def gen_source(rng, flavour, tls=False, adj=0):
     """flavour: 'hosted' (main, libc), 'obj' (freestanding, undefined externs allowed),
     'freelink' (freestanding, self-contained, _start)"""
     L = []
@@ -137,6 +137,13 @@ def gen_source(rng, flavour, tls=False):
         names.append("f%d" % i)
     L.append("int (*const fptab[])(int, int) = {%s};" % ", ".join(names))
     L.append("int dispatch(int i, int a, int b) { return fptab[(unsigned)i %% %d](a, b); }" % len(names))
+    for i in range(adj):
+        # small custom sections: the linker lays them out back to back (adjacent PROGBITS sections)
+        n = rng.randint(1, 9)
+        ro = i % 2 == 1
+        L.append('__attribute__((section(".vf%s%d"), used, aligned(8))) %slong vf%d[%d] = {%s};' % (
+            "r" if ro else "d", i, "const " if ro else "", i, n,
+            ", ".join(str(rng.randint(1, 10 ** 9)) for _ in range(n))))
     if flavour == "hosted":
         L.append('int main(int argc, char **argv) { printf("%%d %%s\\n", dispatch(argc, argc, %d), argv[0]); '
                  'return (int)strlen(argv[0]); }' % rng.randint(0, 99))
@@ -170,13 +177,14 @@ def build(kind, rng, wd, idx):
     out = os.path.join(wd, "out%d" % idx)
     tmp = os.path.join(wd, "tmp%d" % idx)
 
-    def write(flavour, tls=False, path=src):
+    def write(flavour, tls=False, path=src, adj=0):
         with open(path, "w") as fd:
-            fd.write(gen_source(rng, flavour, tls))
+            fd.write(gen_source(rng, flavour, tls, adj))
 
     steps = []
     if kind in HOSTED:
-        write("hosted", tls=(kind == "exe_tls" or rng.random() < 0.15))
+        write("hosted", tls=(kind == "exe_tls" or rng.random() < 0.15),
+              adj=rng.randint(6, 14) if kind == "exe_adjsec" else (rng.randint(2, 6) if rng.random() < 0.25 else 0))
         g = ["gcc", "-w", opt, src]
         if kind == "exe_nopie":
             steps = [g + ["-no-pie", "-o", out]]
@@ -204,6 +212,8 @@ def build(kind, rng, wd, idx):
             steps = [g + ["-g", "-o", tmp], ["objcopy", "--only-keep-debug", tmp, out]]
         elif kind == "exe_clang":
             steps = [["clang-14", "-w", opt, src, "-o", out]]
+        elif kind == "exe_adjsec":
+            steps = [g + [rng.choice(["-no-pie", "-pie", "-static"]), "-o", out]]
         elif kind == "exe_tls":
             steps = [g + [rng.choice(["-no-pie", "-pie"]), "-o", out]]
     elif kind in OBJ64:
@@ -324,6 +334,35 @@ def diff_views(a, b, changed):
     return None
 
 
+def adjacent_runs(e, etype):
+    """runs of PROGBITS sections that are adjacent in the address space and own their addresses
+    alone (index lists, length >= 2)"""
+    from miasm.loader import elf_init
+    if etype not in (2, 3):
+        return []
+    secs = [(i, s) for i, s in enumerate(e.sh.shlist) if s.sh.size > 0]
+    alloc = sorted([(s.sh.addr, i, s) for i, s in secs if s.sh.addr and (s.sh.flags & 2)], key=lambda t: t[:2])
+
+    def good(i, s):
+        if s.sh.type != 1 or not isinstance(s, elf_init.ProgBits) or s.sh.size > (1 << 18):
+            return False
+        for j, t in secs:
+            if j != i and t.sh.addr < s.sh.addr + s.sh.size and s.sh.addr < t.sh.addr + t.sh.size:
+                return False
+        return True
+    runs, cur = [], []
+    for addr, i, s in alloc:
+        if good(i, s) and cur and e.sh.shlist[cur[-1]].sh.addr + e.sh.shlist[cur[-1]].sh.size == addr:
+            cur.append(i)
+            continue
+        if len(cur) >= 2:
+            runs.append(cur)
+        cur = [i] if good(i, s) else []
+    if len(cur) >= 2:
+        runs.append(cur)
+    return runs
+
+
 def check_file(path, kind, rng, rec):
     from miasm.loader.elf_init import ELF
     from miasm.loader import elf_init
@@ -372,12 +411,18 @@ def check_file(path, kind, rng, rec):
 
     # ---- oracle 2: same-size edits
     nsessions = 1 if len(data) > 300000 else rng.choice([1, 2, 3])
-    for _ in range(nsessions):
+    runs0 = adjacent_runs(e, ref["ehdr"]["type"])
+    if runs0:
+        rec.count("files_with_adjacent_progbits_runs")
+        rec.count("longest_adjacent_run:%d" % min(8, max(len(r) for r in runs0)))
+    plan = ["mixed"] * nsessions + (["span"] * (1 if len(data) > 300000 else 2) if runs0 else [])
+    for session_kind in plan:
         try:
             e = ELF(data)
         except Exception as exc:
             rec.fail("second parse raises %s" % type(exc).__name__, repr(exc), wit)
             return
+        runs = adjacent_runs(e, ref["ehdr"]["type"])
         cands = [i for i, s in enumerate(e.sh.shlist)
                  if s.sh.type in EDITABLE_TYPES and s.sh.size > 0 and isinstance(s, elf_init.Section)]
         if not cands:
@@ -387,6 +432,62 @@ def check_file(path, kind, rng, rec):
         new_content = {}
         ops = []
         for _ in range(rng.choice([1, 1, 2, 3])):
+            if runs and (session_kind == "span" or rng.random() < 0.15):
+                # ---- one virtual write over 2, 3 or more adjacent sections
+                run = rng.choice(runs)
+                big = [r for r in runs if len(r) >= 3]
+                if big and rng.random() < 0.7:
+                    run = rng.choice(big)
+                k = 2 if len(run) == 2 else rng.choice([2, 3, 3, len(run), rng.randint(3, len(run))])
+                j = rng.randrange(0, len(run) - k + 1)
+                idxs = run[j:j + k]
+                ss = [e.sh.shlist[x] for x in idxs]
+                curs = [new_content.get(x, bytes(expected[t.sh.offset:t.sh.offset + t.sh.size]))
+                        for x, t in zip(idxs, ss)]
+                off0 = rng.randrange(ss[0].sh.size) if rng.random() < 0.8 else 0
+                endoff = rng.randint(1, ss[-1].sh.size) if rng.random() < 0.8 else ss[-1].sh.size
+                total = (ss[0].sh.size - off0) + sum(t.sh.size for t in ss[1:-1]) + endoff
+                patch = rng.randbytes(total)
+                start = ss[0].sh.addr + off0
+                news, pos = [], 0
+                for n_, (t, c) in enumerate(zip(ss, curs)):
+                    if n_ == 0:
+                        take = t.sh.size - off0
+                        news.append(c[:off0] + patch[:take])
+                    elif n_ == k - 1:
+                        take = endoff
+                        news.append(patch[pos:pos + take] + c[endoff:])
+                    else:
+                        take = t.sh.size
+                        news.append(patch[pos:pos + take])
+                    pos += take
+                names_ = [view0["sections"][x]["name_str"] for x in idxs]
+                cls_ = "2" if k == 2 else ">=3"
+                try:
+                    if rng.random() < 0.5:
+                        e.virt.set(start, patch)
+                    else:
+                        e.virt[start] = patch
+                    back = e.virt.get(start, start + total)
+                except Exception as exc:
+                    rec.fail("virtual write over %s adjacent sections raises %s" % (cls_, type(exc).__name__),
+                             repr(exc), dict(wit, sections=names_, start=hex(start), len=total))
+                    return
+                rec.count("virt_readback")
+                rec.count("edit:virt_span")
+                rec.count("virt_span_sections:%d" % min(k, 8))
+                if k >= 3:
+                    rec.count("virt_span_sections>=3")
+                if back != patch:
+                    rec.fail("virtual write over %s adjacent sections then virt.get differ" % cls_,
+                             "wrote %d bytes at %#x over %s" % (total, start, names_),
+                             dict(wit, sections=names_, start=hex(start), len=total))
+                ops.append(("virt_span", names_, off0, total))
+                for x, t, nw in zip(idxs, ss, news):
+                    assert len(nw) == t.sh.size
+                    new_content[x] = nw
+                    expected[t.sh.offset:t.sh.offset + t.sh.size] = nw
+                continue
             i = rng.choice(cands)
             s = e.sh.shlist[i]
             cur = new_content.get(i, bytes(expected[s.sh.offset:s.sh.offset + s.sh.size]))
@@ -522,6 +623,10 @@ def floors(tier, counters, evaluations):
     need["edit:assign"] = 40
     need["edit:patch"] = 40
     need["edit:virt"] = 10
+    need["edit:virt_span"] = 60
+    need["virt_span_sections>=3"] = 30
+    need["virt_span_sections:2"] = 10
+    need["kind:exe_adjsec"] = 1
     for k, v in sorted(need.items()):
         if counters.get(k, 0) < v:
             miss.append("%s = %d < %d" % (k, counters.get(k, 0), v))
